@@ -2,7 +2,7 @@
    It is a hypothesis of the refinement theorems and, extracted with the
    model, what the correspondence check evaluates: a deviation from the
    specification is "listed" exactly when this predicate names it.
-   One disjunct per entry of /verif/KNOWN_FINDINGS.jsonl with status "known". *)
+   One disjunct per data-level entry of /verif/KNOWN_FINDINGS.jsonl with status "known". *)
 From Redka Require Import Base Db Ops.
 
 Definition excluded (now : Z) (d : db) (o : op) : option string :=
@@ -10,6 +10,15 @@ Definition excluded (now : Z) (d : db) (o : op) : option string :=
   (* Key.Len / DBSIZE is "select count( * ) from rkey": it counts keys that have
      expired but have not been removed yet (documented so in the Go comment) *)
   | KLen => if existsb (expired now) (rkey d) then Some "kf_keylen_counts_expired" else None
+  (* list positions are binary64 values: an insert takes the midpoint of two neighbouring
+     positions, a push max+1 / min-1.  After 52 inserts before one element the midpoint coincides
+     with a neighbour (and at 2^53 x+1 = x): the UNIQUE (kid, pos) index refuses the write, nothing
+     changes - the list no longer "accepts inserts at any position" *)
+  | LInsertAfter _ _ _ | LInsertBefore _ _ _ | LPushBack _ _ | LPushFront _ _ | LPopBackPushFront _ _ =>
+      match o_err (snd (exec_db now o d)) with
+      | Some (ESql (SqUnique _)) => Some "kf_list_position_exhausted"
+      | _ => None
+      end
   | _ => None
   end.
 
